@@ -1047,6 +1047,17 @@ def gen_update_case(r, profile='default', rounds=None):
                         data = ET.compress(fmt, data)
                 t.add_file(p, data)
                 muts.append('unregistered:' + kind + ':' + p)
+    if prior != 'absent' and r.random() < 0.12:
+        # a sibling whose name merely string-extends the name of a directory with a Manifest of its own, holding a new file
+        mdirs = sorted({os.path.dirname(m) for m in written if os.path.dirname(m) and t.lookup(os.path.dirname(m)) is not None})
+        if mdirs:
+            X = r.choice(mdirs)
+            Y = X + r.choice(['2', 'x', '-extra', '.d', 'way'])
+            if t.lookup(Y) is None and t.lookup(os.path.dirname(Y)) is not None and t.nodes[t.lookup(os.path.dirname(Y))]['k'] == 'd':
+                t.add_dir(Y)
+                t.add_file(Y + '/newfile', b'new file in the sibling\n')
+                c.meta['dirs'].append(Y)
+                muts.append('prefix-sibling:' + Y)
     c.meta['mutations'] = muts
     c.meta['prior'] = prior
     t.hardlinks = True
